@@ -44,6 +44,10 @@ fn profs() -> Vec<Vec<Vec<String>>> {
 pub struct C14Case {
     /// one choice vector [name, qual, version, archs, profiles] per relation; outer = entries, inner = alternatives
     pub field: Vec<Vec<[usize; 5]>>,
+    /// instead: a lossy value obtained by PARSING the text that relgen renders for this relation-slot vector
+    /// (non-canonical layouts: the value then goes through the same print / re-read / conversion checks)
+    #[serde(default, skip_serializing_if = "Option::is_none")]
+    pub parsed: Option<Vec<usize>>,
 }
 
 fn menus() -> [usize; 5] {
@@ -188,12 +192,38 @@ impl Prop for C14 {
         vec!["component strings outside the menus are not explored; an empty architecture list (Some(vec![])) is treated as a valid component".into()]
     }
     fn n_shards(&self, t: Tier) -> usize {
-        1 + t.pick(2, 3)
+        2 + t.pick(2, 3)
     }
-    fn explore(&self, _t: Tier, shard: usize, f: &mut dyn FnMut(&C14Case) -> Verdict) {
+    fn explore(&self, t: Tier, shard: usize, f: &mut dyn FnMut(&C14Case) -> Verdict) {
+        if shard == 1 + t.pick(2, 3) {
+            // values obtained by parsing: the full product of relgen's relation parts in three layouts
+            // (canonical; blanks inside all brackets; wide blanks between the parts)
+            product(&[3, 3, 6, 3, 6, 8], &mut |pv| {
+                for ws in 0..3 {
+                    let mut v = vec![0usize; REL_SLOTS];
+                    v[..6].copy_from_slice(pv);
+                    match ws {
+                        1 => {
+                            v[11] = 1;
+                            v[12] = 1;
+                        }
+                        2 => {
+                            v[6] = 2;
+                            v[8] = 2;
+                            v[9] = 2;
+                        }
+                        _ => {}
+                    }
+                    if render_rel(&v, true).is_some() {
+                        f(&C14Case { field: vec![], parsed: Some(v) });
+                    }
+                }
+            });
+            return;
+        }
         if shard == 0 {
             product(&menus(), &mut |v| {
-                f(&C14Case { field: vec![vec![[v[0], v[1], v[2], v[3], v[4]]]] });
+                f(&C14Case { field: vec![vec![[v[0], v[1], v[2], v[3], v[4]]]], parsed: None });
             });
             return;
         }
@@ -202,10 +232,10 @@ impl Prop for C14 {
         let entries = shard;
         if shard == 1 {
             // the empty value, and one entry of three alternatives
-            f(&C14Case { field: vec![] });
+            f(&C14Case { field: vec![], parsed: None });
             let n = sub.len();
             product(&[n, n, n], &mut |v| {
-                f(&C14Case { field: vec![vec![sub[v[0]], sub[v[1]], sub[v[2]]]] });
+                f(&C14Case { field: vec![vec![sub[v[0]], sub[v[1]], sub[v[2]]]], parsed: None });
             });
         }
         if entries >= 3 {
@@ -234,11 +264,18 @@ impl Prop for C14 {
             if field.len() == 1 && field[0].len() == 1 {
                 return; // covered by shard 0
             }
-            f(&C14Case { field });
+            f(&C14Case { field, parsed: None });
         });
     }
     fn check(&self, c: &C14Case, st: &mut Stats) -> Vec<Viol> {
         let r = guard(100_000, || {
+            if let Some(v) = &c.parsed {
+                let Some((text, _)) = render_rel(v, true) else { return vec![] };
+                return match ly::Relation::from_str(&text) {
+                    Ok(val) => check_rel(&val),
+                    Err(_) => vec![], // acceptance of well-formed text is C10's clause
+                };
+            }
             if c.field.len() == 1 && c.field[0].len() == 1 {
                 check_rel(&mk(&c.field[0][0]))
             } else {
@@ -246,7 +283,7 @@ impl Prop for C14 {
                 check_field(&rs)
             }
         });
-        if c.field.iter().flatten().any(|v| v[1..].iter().any(|x| *x != 0)) || c.field.iter().flatten().count() > 1 {
+        if c.parsed.is_some() || c.field.iter().flatten().any(|v| v[1..].iter().any(|x| *x != 0)) || c.field.iter().flatten().count() > 1 {
             st.nontrivial += 1;
         }
         match r {
@@ -265,19 +302,19 @@ impl Prop for C14 {
             if c.field.len() > 1 {
                 let mut f = c.field.clone();
                 f.remove(e);
-                out.push(C14Case { field: f });
+                out.push(C14Case { field: f, parsed: None });
             }
             for a in 0..c.field[e].len() {
                 if c.field[e].len() > 1 {
                     let mut f = c.field.clone();
                     f[e].remove(a);
-                    out.push(C14Case { field: f });
+                    out.push(C14Case { field: f, parsed: None });
                 }
                 for s in 0..5 {
                     if c.field[e][a][s] != 0 {
                         let mut f = c.field.clone();
                         f[e][a][s] = 0;
-                        out.push(C14Case { field: f });
+                        out.push(C14Case { field: f, parsed: None });
                     }
                 }
             }
